@@ -624,7 +624,7 @@ impl Prop for SchedProp {
                 level: "model_checking",
                 rule: "cross-thread half of C06: producer -> real lifecycle stage -> [time sort] -> consumer thread over sync_channels of capacity 0/1/2 (shuttle runtime, delay-bounded and preemption-bounded DFS as for C13) on 8 streams that drive every release path of the stage (final flush, mid-stream confirmation, merge of buffered lifecycles, merge of an already confirmed lifecycle, suspend/resume, overlapping lifecycle confirmed before its predecessor); in every schedule the consumer thread looks each received message's lifecycle up through its own evmap ReadHandle at the moment of reception: it must be visible with the message's ECU.".into(),
                 assumptions: vec!["shuttle serialises tasks; evmap runs atomically between scheduling points".into()],
-                budget_s: (40, 900),
+                budget_s: (120, 900),
                 workers: 0,
                 required_landmarks: vec!["executions", "channel_full_branch_taken"],
             };
@@ -636,7 +636,7 @@ impl Prop for SchedProp {
             assumptions: vec!["shuttle serialises tasks: weak-memory behaviours inside evmap/std are not explored".into(),
                 "evmap and other non-channel code run atomically between scheduling points".into(),
                 "preemption bound and per-configuration execution cap as listed in coverage.families (complete=false when a cap was hit)".into()],
-            budget_s: (45, 1500),
+            budget_s: (120, 1500),
             workers: 0,
             required_landmarks: vec!["channel_full_branch_taken", "executions"],
         }
